@@ -48,6 +48,9 @@ def _list_items(fi: FuncInfo, it: ast.AST) -> Optional[Tuple[List[str], Optional
     kw = fi.node.args.kwarg.arg if fi.node.args.kwarg else None
     params: List[str] = []
     covers = None
+    from .x_flow import resolve_local
+
+    it = resolve_local(fi, it)  # the list may be bound to a local first
 
     def items_of_kwargs(e) -> bool:
         while isinstance(e, ast.Call) and q.call_attr(e) in ("list", "tuple") and len(e.args) == 1:
